@@ -37,6 +37,9 @@ Inductive stmt :=
 (* ---- pysnark.branching block API on a BranchingValues object `_` (variables are named by numbers) ---- *)
 | SBSet (nm : nat) (src : nat)                       (* _.nm = regs[src] *)
 | SBGet (d : nat) (nm : nat)                         (* regs[d] = _.nm *)
+| SBSetIdx (nm : nat) (path : list nat) (src : nat)  (* _.nm[i][j]... = regs[src]   (in-place write into a (nested) list variable) *)
+| SBGetIdx (d : nat) (nm : nat) (path : list nat)    (* regs[d] = _.nm[i][j]... *)
+| SRaise (e : exn)                                   (* raise e() -- an exception raised by the program itself *)
 | SOIf (cnd : nat) (thenb : list stmt) (elifs : list (list stmt * nat * list stmt)) (elseb : option (list stmt))
       (* if _if(c): thenb;  if _elif(lambda: <condb>; regs[cr]): body ...;  if _else(): elseb;  _endif() *)
 | SOWhile (condb : list stmt) (cr : nat) (iters : nat) (body : list stmt)
@@ -431,7 +434,8 @@ Fixpoint gen_stmt (st : stmt) (r : regs) {struct st} : G regs :=
       | PInt _ => static_raise NotImplementedError
       | _ => static_raise RuntimeError
       end
-  | SBSet _ _ | SBGet _ _ | SOIf _ _ _ _ | SOWhile _ _ _ _ | SBreakIf _ | SOFor _ _ _ _ _ _ => static_raise ModelError   (* block API only at statement level *)
+  | SRaise e => static_raise e
+  | SBSet _ _ | SBGet _ _ | SBSetIdx _ _ _ | SBGetIdx _ _ _ | SOIf _ _ _ _ | SOWhile _ _ _ _ | SBreakIf _ | SOFor _ _ _ _ _ _ => static_raise ModelError   (* block API only at statement level *)
   | SPermute d ps src =>
       match rget r src with
       | PList l => match as_lcs l with
@@ -488,6 +492,23 @@ Fixpoint deepcopy (v : pyval) : pyval :=
   | PBool _ x => PBool 0 x | PFxp _ x => PFxp 0 x
   | PList l => PList (map deepcopy l) | PTuple l => PTuple (map deepcopy l)
   | _ => v
+  end.
+(* v[i][j]... and v[i][j]... = nv on (nested) plain lists *)
+Fixpoint get_path (v : pyval) (path : list nat) : option pyval :=
+  match path with
+  | [] => Some v
+  | i :: rest => match v with PList l => match nth_error l i with Some e => get_path e rest | None => None end | _ => None end
+  end.
+Fixpoint list_upd {A} (l : list A) (i : nat) (a : A) : list A :=
+  match l, i with [], _ => [] | _ :: l', O => a :: l' | x :: l', S i' => x :: list_upd l' i' a end.
+Fixpoint upd_path (v : pyval) (path : list nat) (nv : pyval) : option pyval :=
+  match path with
+  | [] => Some nv
+  | i :: rest => match v with
+                 | PList l => match nth_error l i with
+                              | Some e => match upd_path e rest nv with Some e' => Some (PList (list_upd l i e')) | None => None end
+                              | None => None end
+                 | _ => None end
   end.
 Inductive ctxkind := KIf | KWhile.
 Record bctx := { bk : ctxkind; bcond : pyval; bbak : bdict; borig : Sym.gtriple p; bnodef : option bdict; bicond : option pyval }.
@@ -562,6 +583,19 @@ Fixpoint gen_top (st : stmt) (b : bst) {struct st} : G1 bst :=
   | SIgnore f => s <- get ;; set_globals (guard s) (if f then BTrue else BFalse) (one s) ;;; ret b
   | SBSet nm src => v <- lift (name_val (rget (bregs b) src)) ;; ret (with_vals (with_regs b (rset (bregs b) src v)) (dset (bvals b) nm v))
   | SBGet d nm => match dget (bvals b) nm with Some v => name_store b d v | None => static_raise AttributeError end   (* KeyError *)
+  | SBSetIdx nm path src =>
+      match dget (bvals b) nm with
+      | None => static_raise AttributeError
+      | Some cur => v <- lift (name_val (rget (bregs b) src)) ;;
+                    match upd_path cur path v with
+                    | Some nv => ret (with_vals (with_regs b (rset (bregs b) src v)) (dset (bvals b) nm nv))
+                    | None => static_raise IndexError end
+      end
+  | SBGetIdx d nm path =>
+      match dget (bvals b) nm with
+      | None => static_raise AttributeError
+      | Some cur => match get_path cur path with Some v => name_store b d v | None => static_raise IndexError end
+      end
   | SBreakIf cn =>
       match bstack b with
       | cx :: rest => nc <- bnot_v (rget (bregs b) cn) ;; r <- ctx_while cx (bvals b) nc ;;
